@@ -16,6 +16,8 @@ OBLIGATIONS = [
     "KafVerif.C07.scanRecord_encRec",
     "KafVerif.C07.decodeRecords_encRecs",
     "KafVerif.C07.decodeBatchRecords_encBatch",
+    "KafVerif.C07.count_check_admits_wellformed",
+    "KafVerif.C07.count_check_divisor_8_rejects_minimal",
     "KafVerif.C07.decodeSegment_buildSegment",
     "KafVerif.C07.buildSegment_wf",
     "KafVerif.C07.index_entries_sound",
@@ -46,8 +48,8 @@ INTERVALS = [1, 1, 2, 3, 5, 100, 0, -1, 2 ** 31 - 1]
 SKELETON_FP = "skeleton-decoder-is-placeholder"
 
 
-def gen_case(rng, wide_ts=True):
-    batches = S.gen_batches(rng, wide_ts=wide_ts)
+def gen_case(rng, wide_ts=True, shape=None):
+    batches = S.gen_shape_batches(rng, None if shape == "mixed" else shape) if shape else S.gen_batches(rng, wide_ts=wide_ts)
     interval = rng.choice(INTERVALS)
     created = rng.choice([0, 1700000000123, 1700000000123, 4102444800000])
     return {"interval": interval, "created": created, "batches": batches}
@@ -171,7 +173,16 @@ def run(ck):
                       "sparse offset deltas, index intervals incl. <= 0) serialised with kmsg, written by BuildSegment and by "
                       "PartitionLog.Flush, decoded by the iceberg/sql/skeleton decoders and the PITR scanner; a case is non-trivial "
                       "when it has >= 2 records and at least one header or null key/value; distinct = distinct build ops")
-    cases = [gen_case(ck.rng.fork(), wide_ts=(i % 4 != 3)) for i in range(n)]
+    # one third of the cases are boundary shapes (minimal 7-byte records, single-record batches, varint width edges,
+    # many/empty headers, null vs empty); each named shape appears at least twice in the quick tier
+    shapes = sorted(set(S.SHAPES))
+    cases = []
+    for i in range(n):
+        if i % 3 == 2:
+            k = i // 3
+            cases.append(gen_case(ck.rng.fork(), shape=(shapes[k % len(shapes)] if k < 2 * len(shapes) else "mixed")))
+        else:
+            cases.append(gen_case(ck.rng.fork(), wide_ts=(i % 4 != 3)))
     # corpus first: the replays that pinned the defects found so far
     import glob, os
     for k, fn in enumerate(sorted(glob.glob(os.path.join(lib.REPLAYS, "C07", "*.json")))):
@@ -183,6 +194,10 @@ def run(ck):
     r0 = {"attrs": 0, "tsd": 0, "od": 0, "key": None, "val": None, "hdrs": []}
     cases[0] = {"interval": 1, "created": 0, "batches": [{"base": 0, "first": 0, "max": 2 ** 31, "lod": 1, "recs": [
         r0, dict(r0, od=1, tsd=2 ** 31, key=b"", val=b"v", hdrs=[(b"h", None), (b"", b"")])]}]}
+    # fixed: one minimal (7-byte) record alone, and three keyless tombstones (21 bytes of record data)
+    cases[-1] = {"interval": 1, "created": 0, "batches": [{"base": 0, "first": 0, "max": 0, "lod": 0, "recs": [r0]}]}
+    cases[-2] = {"interval": 2, "created": 0, "batches": [{"base": 7, "first": 5, "max": 7, "lod": 2, "recs": [
+        r0, dict(r0, od=1, tsd=1, val=b""), dict(r0, od=2, tsd=2, key=b"")]}]}
     res = run_cases(ck, bins, cases, "q")
     for k, c in enumerate(cases):
         nrec = sum(len(b["recs"]) for b in c["batches"])
@@ -192,6 +207,11 @@ def run(ck):
         ck.count("null_keys", sum(1 for b in c["batches"] for r in b["recs"] if r["key"] is None))
         ck.count("ts_delta_ge_2^30", sum(1 for b in c["batches"] for r in b["recs"] if abs(r["tsd"]) >= 2 ** 30))
         ck.count("negative_ts_delta", sum(1 for b in c["batches"] for r in b["recs"] if r["tsd"] < 0))
+        ck.count("batches_all_minimal_7_byte_records", sum(1 for b in c["batches"] if all(
+            not r["hdrs"] and not r["key"] and not r["val"] and -64 <= r["tsd"] <= 63 and r["od"] <= 63 for r in b["recs"])))
+        ck.count("single_record_batches", sum(1 for b in c["batches"] if len(b["recs"]) == 1))
+        ck.count("empty_but_present_key_or_value", sum(1 for b in c["batches"] for r in b["recs"] if r["key"] == b"" or r["val"] == b""))
+        ck.count("headers_with_empty_key_or_null_value", sum(1 for b in c["batches"] for r in b["recs"] for hk, hv in r["hdrs"] if hk == b"" or hv is None))
         ck.case(res["ops"][k], nontrivial=(nrec >= 2 and rich),
                 sample={"op": res["ops"][k][:300], "iceberg": res["i_iceberg"][k][:200]})
         ck.cov["traces_validated_against_impl"] += 1
@@ -227,7 +247,7 @@ def run(ck):
 def hunt(ck, bins):
     """Correspondence broke without a monitor hit: widen the search for a concrete failing input."""
     for rnd in range(6):
-        cases = [gen_case(ck.rng.fork()) for _ in range(80)]
+        cases = [gen_case(ck.rng.fork(), shape=("mixed" if j % 2 else None)) for j in range(80)]
         res = run_cases(ck, bins, cases, "h%d" % rnd, model=False)
         ck.cov["evaluations"] += len(cases)
         for k, c in enumerate(cases):
